@@ -795,6 +795,11 @@ def call_cmethod(I, run, recv: Value, name: str, args: List[Value], kwargs, node
                 I.raise_builtin(run, type(e).__name__, node, C(str(e)))
         return App("m:" + name, (recv,) + tuple(args))
     if isinstance(recv, C) and isinstance(recv.v, int) and name in ("to_bytes", "bit_length"):
+        if all(isinstance(a, C) for a in args) and all(isinstance(v, C) for v in kwargs.values()):
+            try:
+                return C(getattr(recv.v, name)(*[a.v for a in args], **{k: v.v for k, v in kwargs.items()}))
+            except (OverflowError, ValueError, TypeError) as e:
+                I.raise_builtin(run, type(e).__name__, node, C(str(e)))
         return App("m:" + name, (recv,) + tuple(args), "bytes" if name == "to_bytes" else "int")
     if isinstance(recv, C):
         I.raise_builtin(run, "AttributeError", node, C(f"{type(recv.v).__name__}.{name}"))
@@ -950,6 +955,15 @@ def call(I, run, fn: Value, args: List[Value], kwargs: Dict[str, Value], node) -
         name = fn.name
         if name in cfg.stubs:
             return cfg.stubs[name](I, run, args, kwargs, node)
+        if name == "builtins.int.from_bytes":
+            ra = [I.resolve(run, a) for a in args]
+            ra = [C(EXT_CONST[a.name]) if isinstance(a, Ext) and a.name in EXT_CONST else a for a in ra]
+            if ra and all(isinstance(a, C) for a in ra):
+                try:
+                    return C(int.from_bytes(*[a.v for a in ra], **{k: I.resolve(run, v).v for k, v in kwargs.items()}))
+                except (TypeError, ValueError) as e:
+                    I.raise_builtin(run, type(e).__name__, node, C(str(e)))
+            return App("int.from_bytes", tuple(ra), "int")
         if name.startswith("builtins."):
             b = BUILTINS.get(name[9:])
             if b is not None:
